@@ -195,7 +195,8 @@ class Model:
             # depends on the overlaps (a placeholder overlap matches any) — UNSPECIFIED
             for r in self.recs:
                 if r.rt == "L" and (r.pos[:4] == rec.pos[:4] or
-                                    r.pos[:4] == S.link_complement_pos(rec.pos[:5])[:4]):
+                                    r.pos[:4] == S.link_complement_pos(rec.pos[:5])[:4]) and \
+                        (r.pos[4] == "*" or rec.pos[4] == "*"):
                     return "unspec"
         if n is None:
             return "ok"
